@@ -300,7 +300,10 @@ func init() {
 		ssoSuite(c, monC06, "Monitor: independent evaluation of the necessary conditions vs. CreateAuthRequest. Lib.Time.parseDefault vs time.Parse on a boundary corpus and a mutation stream.")
 	}
 	props["timeparse"] = libTimeParse
-	props["C05"] = func(c *Ctx) { ssoSuite(c, monC05, "Monitor: what the simulated SP actually signed vs. CreateAuthRequest.") }
+	props["C05"] = func(c *Ctx) {
+		reqOctetsDiff(c)
+		ssoSuite(c, monC05, "Monitor: what the simulated SP actually signed vs. CreateAuthRequest. Octets differential: signatures made with a real key over the octets of the model (RedirectSigGen.octets, through the driver) must be accepted by the real ValidateRedirectSignature for exactly these values and refused for a changed request / RelayState.")
+	}
 	props["survey-sso"] = func(c *Ctx) {
 		ssoSuite(c, func(c *Ctx, r *SsoRun) {
 			monC08(c, r)
